@@ -144,7 +144,7 @@ pub fn case(ctx: &mut Ctx, gi: &GInfo, rule: usize, tape: &[u8]) -> CaseResult {
 pub fn run(world: &World, ctx: &mut Ctx) -> Option<Value> {
     ctx.ev.rule = RULE.to_string();
     let pairs = super::pairs(world, &[]);
-    let total = ctx.tier.pick(200_000u64, 4_000_000u64);
+    let total = ctx.tier.pick(500_000u64, 6_000_000u64);
     let n = super::per_pair(total, pairs.len(), 40, 20_000);
     if let Some(v) = run_reproducers(world, ctx, check_input) {
         return Some(v);
